@@ -553,7 +553,10 @@ impl<F: MatchFunc> Aligner<F> {
                 self.I[curr][i] = MIN_SCORE;
                 self.D[curr][i] = MIN_SCORE;
             }
-            self.S[curr][m] = MIN_SCORE;
+            if m > 0 {
+                // For an empty x, row m is row 0, which has just been computed above.
+                self.S[curr][m] = MIN_SCORE;
+            }
 
             let q = y[j - 1];
             let xclip_score = self.scoring.xclip_prefix
